@@ -1708,6 +1708,33 @@ def gen_addr_ada(ctx, keys):
             ctx.run("addr_ada_byron", [a_b58enc(raw) if raw else ""], t)
 
 
+def gen_addr_zero_checksum(ctx):
+    """valid addresses whose checksum has a zero first or last byte (the 1-in-256 class: a checksum converted
+    through an integer or stripped loses it), keys k*G found by search with the reference checksums"""
+    import ecref
+    E = ecref.ED25519
+    P, eds = E.G, []
+    for _ in range(ctx.n(700, 3000)):
+        eds.append(E.ser(P))
+        P = E.add(P, E.G)
+    per = ctx.n(2, 5)
+    fams = [("addr_xlm", lambda e: [48, a_xlm(48, e)], lambda e: a_crc16_xmodem(bytes([48]) + e).to_bytes(2, "little")),
+            ("addr_xlm", lambda e: [144, a_xlm(144, e)], lambda e: a_crc16_xmodem(bytes([144]) + e).to_bytes(2, "little")),
+            ("addr_algo", lambda e: [a_algo(e)], lambda e: _orc.sha512_256(e)[-4:]),
+            ("addr_nano", lambda e: [a_nano(e)], lambda e: a_blake(e, 5))]
+    for fn, mk, ref in fams:
+        got = {0: 0, 1: 0}
+        for e in eds:
+            ck = ref(e)
+            side = 0 if ck[0] == 0 else (1 if ck[-1] == 0 else None)
+            if side is None or got[side] >= per:
+                continue
+            got[side] += 1
+            ctx.run(fn, mk(e), "zero-%s-checksum-byte" % ("first" if side == 0 else "last"))
+            if got[0] >= per and got[1] >= per:
+                break
+
+
 def gen_addr(ctx):
     """address-level acceptance streams; a fixed, small number of keys per family (quick: 2, thorough: 12)"""
     n = ctx.n(2, 12)
@@ -1717,6 +1744,7 @@ def gen_addr(ctx):
     gen_addr_bech32(ctx, keys)
     gen_addr_base32(ctx, keys)
     gen_addr_ada(ctx, keys)
+    gen_addr_zero_checksum(ctx)
     ctx.note_exhaustive("address decoders: per key every listed structural variant (payload lengths, prefixes / versions / header "
                         "types 0..15, spare bits 1..3 / 1..7, pad bits, optional fields present / missing) for 35 DecodeAddr entry points")
 
